@@ -66,6 +66,11 @@ func (mem *Mempool) checkExpireValid(tx *types.Transaction) bool {
 // CheckTx 初步检查并筛选交易消息
 func (mem *Mempool) checkTx(msg *queue.Message) *queue.Message {
 	tx := msg.GetData().(types.TxGroup).Tx()
+	// 签名类型中的地址类型必须是已注册的地址驱动, 否则后续tx.From()会panic
+	if _, err := address.LoadDriver(types.ExtractAddressID(tx.GetSignature().GetTy()), -1); err != nil {
+		msg.Data = err
+		return msg
+	}
 	// 检查接收地址是否合法
 	if err := address.CheckAddress(tx.To, atomic.LoadInt64(&mem.currHeight)); err != nil {
 		msg.Data = types.ErrInvalidAddress
